@@ -1334,6 +1334,9 @@ func partI(d *driver, tag string, polNames []string, n int, cases []labelCase, m
 	}
 	sort.SliceStable(sts, func(i, j int) bool { return sts[i].rf < sts[j].rf })
 	d.runBlocks(len(cases), func(w *wk, b int) {
+		// <= 3 shards: a terminating round logs <= 4 errors; 16 instead of 60 retries of a never-ending round
+		w.bal.SetLivelockThreshold(16)
+		defer w.bal.SetLivelockThreshold(60)
 		lc := cases[b]
 		k := int64(0)
 		for _, pol := range polNames {
